@@ -37,7 +37,8 @@ extern uint64_t EXC_OBJ;
 extern uint64_t ir_tid;
 extern const int ir_ti_parent[];
 int ir_ti_id(uint64_t addr);
-void ir_global_ctors(void);   /* the static initialisers of reachable globals, in module order */
+void ir_global_ctors(void);
+void ir_thread_exit(uint64_t tid);   /* the static initialisers of reachable globals, in module order */
 
 #ifdef IR_GCC
 void ir_fail(const char* msg);
